@@ -6,6 +6,7 @@ configurations; single-flight / one recovery per loss over every interleaving (v
 import OAP.Model.Client.Reconnect
 import OAP.Model.Client.SingleFlight
 import OAP.Gen.Facts
+import OAP.Model.Client.Recovery
 namespace OAP.C08
 open OAP OAP.Reconnect
 
@@ -59,5 +60,61 @@ theorem single_flight (acts : List SingleFlight.Act) (s : SingleFlight.St) (h : 
 theorem one_recovery_per_loss (acts : List SingleFlight.Act) (s : SingleFlight.St)
     (h : SingleFlight.run SingleFlight.init acts = some s) (c : Nat) : s.spawns c ≤ 1 :=
   SingleFlight.one_recovery_per_loss acts s h c
+
+
+/-! ### the same properties on the view that mirrors the CURRENT `reconnecting` statement by statement
+(view Recovery: closed() tests, atomic fast path, guard, retry loop with hit-max, dial, Close — any number of notifiers,
+Close callers, every interleaving, every MaxReconnect m) -/
+
+/-- at most one retry-goroutine slot is occupied (running, or finished and not yet received from) -/
+theorem recovery_single_flight (m : Nat) (acts : List Recovery.Act) (s : Recovery.St)
+    (h : Recovery.run (Recovery.init m) acts = some s) (t u : Nat)
+    (ht : Recovery.rLive (s.rc t)) (hu : Recovery.rLive (s.rc u)) : t = u :=
+  Recovery.single_flight m acts s h t u ht hu
+
+/-- one recovery per loss, as far as it holds of the code: while the client is open at most one retry goroutine has been
+started for a connection; at most one was ever started for it before the close signal; one started after the signal never
+calls `reconnect()` -/
+theorem recovery_one_per_loss_partial (m : Nat) (acts : List Recovery.Act) (s : Recovery.St)
+    (h : Recovery.run (Recovery.init m) acts = some s) (c : Nat) :
+    (s.closedSig = false → s.spawns c ≤ 1) ∧ s.spawnsOpen c ≤ 1 ∧ s.lateAttempts = 0 :=
+  Recovery.one_recovery_per_loss_partial m acts s h c
+
+/-- … and the unconditional statement is false of the code: after Close, a notifier that had passed the `closed()` test and
+the fast path earlier starts a second (idle) retry goroutine for the same connection -/
+theorem recovery_one_per_loss_false :
+    ¬ (∀ (m : Nat) (acts : List Recovery.Act) (s : Recovery.St),
+        Recovery.run (Recovery.init m) acts = some s → ∀ c, s.spawns c ≤ 1) :=
+  Recovery.one_recovery_per_loss_false
+
+/-- the atomic mirror equals `doReconnectting` whenever nobody holds the write lock -/
+theorem recovery_flag_agrees (m : Nat) (acts : List Recovery.Act) (s : Recovery.St)
+    (h : Recovery.run (Recovery.init m) acts = some s) : s.writer = false → s.recovering = s.reconn :=
+  Recovery.flag_agrees m acts s h
+
+/-- a notifier that read `recovering = 1` has returned and never took the write lock in that call -/
+theorem recovery_fast_path_no_lock (m : Nat) (acts : List Recovery.Act) (s : Recovery.St)
+    (h : Recovery.run (Recovery.init m) acts = some s) :
+    s.fastLockReqs = 0 ∧ ∀ t, s.fastTaken t = true → s.notif t = .done :=
+  Recovery.fast_path_no_lock m acts s h
+
+/-- every after-reconnect callback was preceded by a `closed()` test that returned false … -/
+theorem recovery_after_cb_guarded (m : Nat) (acts : List Recovery.Act) (s : Recovery.St)
+    (h : Recovery.run (Recovery.init m) acts = some s) :
+    s.afterUnguarded = 0 ∧ ∀ t, s.rc t = .cb → s.guardSaw t = false :=
+  Recovery.after_cb_guarded m acts s h
+
+/-- … so an attempt whose dial completed with the signal already set never reports a reconnect -/
+theorem recovery_after_cb_not_after_closed_dial (m : Nat) (acts : List Recovery.Act) (s : Recovery.St)
+    (h : Recovery.run (Recovery.init m) acts = some s) :
+    s.afterClosedDial = 0 ∧ ∀ t, s.rc t = .cb → s.sigAtDial t = false :=
+  Recovery.after_cb_not_after_closed_dial m acts s h
+
+/-- a hit-max exit leaves the close signal set and the close callback run exactly once -/
+theorem recovery_hitmax_closes (m : Nat) (acts : List Recovery.Act) (s : Recovery.St)
+    (h : Recovery.run (Recovery.init m) acts = some s) :
+    (∀ t, s.rc t = .fin .hitmax → s.closedSig = true ∧ s.onCloseCalls = 1) ∧
+    (0 < s.hitmaxExits → s.closedSig = true ∧ s.onCloseCalls = 1) :=
+  Recovery.hitmax_closes m acts s h
 
 end OAP.C08
